@@ -44,6 +44,51 @@ def _c(v):
     return v
 
 
+_FLOAT_CACHE = {}
+
+
+def _simplest_between(lo, hi):
+    """simplest fraction (smallest denominator) strictly inside the open interval (lo, hi), 0 <= lo < hi."""
+    fl = lo.numerator // lo.denominator
+    if fl + 1 < hi:
+        return Fraction(fl + 1)
+    if lo == fl:
+        # lo integer, hi <= fl+1: need fl + 1/k with 1/k < hi-fl
+        rest = _simplest_between(Fraction(0), hi - fl) if hi - fl < 1 else Fraction(1, 2)
+        if hi - fl >= 1:
+            return Fraction(fl) + Fraction(1, 2)
+        # smallest denominator k with 1/k < hi-fl
+        k = (hi - fl).denominator // (hi - fl).numerator + 1
+        return Fraction(fl) + Fraction(1, k)
+    # same integer part: recurse on reciprocals of fractional parts
+    r = _simplest_between(1 / (hi - fl), 1 / (lo - fl))
+    return fl + 1 / r
+
+
+def float_to_fraction(x):
+    """The simplest rational that rounds to the float x (x itself if it is an integer or a small dyadic).
+    Float literals such as 1/3 or 11.0/3.0 are thereby read as the rationals they were written as."""
+    r = _FLOAT_CACHE.get(x)
+    if r is not None:
+        return r
+    import math
+
+    ex = Fraction(x)
+    if ex.denominator <= 1 << 20:
+        r = ex
+    else:
+        ax = abs(x)
+        lo = (Fraction(math.nextafter(ax, 0.0)) + Fraction(ax)) / 2
+        hi = (Fraction(math.nextafter(ax, math.inf)) + Fraction(ax)) / 2
+        r = _simplest_between(lo, hi)
+        if float(r) != ax:  # safety: must round back to the same float
+            r = Fraction(ax)
+        if x < 0:
+            r = -r
+    _FLOAT_CACHE[x] = r
+    return r
+
+
 def tofrac(x):
     if isinstance(x, bool):
         raise TypeError("bool is not a number here")
@@ -54,7 +99,7 @@ def tofrac(x):
     if isinstance(x, float):
         if x != x or x in (float("inf"), float("-inf")):
             raise ValueError("non-finite float in symbolic arithmetic")
-        return _c(Fraction(x))
+        return _c(float_to_fraction(x))
     raise TypeError(type(x))
 
 
